@@ -40,37 +40,47 @@ def run(ctx: Ctx) -> None:
     m = ctx.model
 
     r = ctx.rule("R17.sorted", "tables are built by iterating sorted(..)")
-    for cn, mn, var in (("RiscvSimulation", "get_data_memory_entries", None), ("ToySimulation", "get_memory_table_entries", None)):
+    from ..parsershape import normal_flow
+
+    def row_source(cn: str, mn: str):
+        """(function, iterable the rows are generated from, in generation order) from the normal form of the function:
+        loops that append, comprehensions and temporaries all arrive as one comprehension."""
         f = m.method(cn, mn, own=True)
-        loops = [n for n in walk_no_nested(f.node) if isinstance(n, (ast.For, ast.comprehension))]
-        ok = False
-        sorted_locals = set()
-        for n in walk_no_nested(f.node):
-            if isinstance(n, ast.Assign) and isinstance(n.targets[0], ast.Name) and isinstance(n.value, ast.Call) \
-                    and isinstance(n.value.func, ast.Name) and n.value.func.id == "sorted" and not n.value.keywords:
-                sorted_locals.add(n.targets[0].id)
-            if isinstance(n, ast.Expr) and isinstance(n.value, ast.Call) and isinstance(n.value.func, ast.Attribute) \
-                    and n.value.func.attr == "sort" and isinstance(n.value.func.value, ast.Name) and not n.value.keywords:
-                sorted_locals.add(n.value.func.value.id)
-        for lp in loops:
-            it = lp.iter
-            if isinstance(it, ast.Name) and it.id in sorted_locals:
-                ok = True
-            if isinstance(it, ast.Call) and isinstance(it.func, ast.Name) and it.func.id == "sorted" and len(it.args) == 1 \
-                    and not any(k.arg == "reverse" for k in it.keywords) and not any(k.arg == "key" for k in it.keywords) \
-                    and ast.unparse(it.args[0]).endswith(".items()"):
-                ok = True
-        # the result list is appended to in loop order and returned as is
-        rets = [n for n in walk_no_nested(f.node) if isinstance(n, ast.Return)]
-        ok = ok and len(rets) == 1 and isinstance(rets[0].value, ast.Name)
+        fl = normal_flow(m, f)
+        if len(fl.returns) != 1 or fl.canon_cond(fl.returns[0].cond) != "TRUE":
+            return f, None, None
+        v = fl.returns[0].value
+        outer_sorted = False
+        if isinstance(v, ast.Call) and isinstance(v.func, ast.Name) and v.func.id == "sorted" and len(v.args) == 1 and not v.keywords:
+            v, outer_sorted = v.args[0], True
+        if isinstance(v, ast.Call) and isinstance(v.func, ast.Name) and v.func.id == "list" and len(v.args) == 1 and isinstance(v.args[0], ast.GeneratorExp):
+            v = v.args[0]
+        if not isinstance(v, (ast.ListComp, ast.GeneratorExp)) or len(v.generators) != 1:
+            return f, None, None
+        return f, v.generators[0].iter, (outer_sorted, v)
+
+    def is_sorted_items(it: ast.AST) -> bool:
+        return isinstance(it, ast.Call) and isinstance(it.func, ast.Name) and it.func.id == "sorted" and len(it.args) == 1 \
+            and not it.keywords and isinstance(it.args[0], ast.Call) and isinstance(it.args[0].func, ast.Attribute) \
+            and it.args[0].func.attr == "items" and not it.args[0].args
+
+    for cn, mn in (("RiscvSimulation", "get_data_memory_entries"), ("ToySimulation", "get_memory_table_entries"), ("InstructionMemory", "get_representation")):
+        f, it, extra = row_source(cn, mn)
+        ok = it is not None and is_sorted_items(it)
+        if it is not None and not ok and extra[0]:
+            # rows sorted afterwards: fine when every row starts with the (unique) key
+            comp = extra[1]
+            tgt = comp.generators[0].target
+            key = tgt.elts[0].id if isinstance(tgt, ast.Tuple) and isinstance(tgt.elts[0], ast.Name) else None
+            first = comp.elt.elts[0] if isinstance(comp.elt, ast.Tuple) and comp.elt.elts else None
+            while isinstance(first, ast.Tuple) and first.elts:
+                first = first.elts[0]
+            ok = key is not None and isinstance(first, ast.Name) and first.id == key
         r.check(ok, f"{cn}.{mn}", f.loc(), f"{cn}.{mn} does not build its rows by iterating sorted(<repr>.items()): the table would "
-                "follow first-write order of the backing dict")
-    f = m.method("InstructionMemory", "get_representation", own=True)
-    txt = " ".join(ast.unparse(f.node).split())
-    ok = "sorted(self.instructions.items(), key=lambda el: el[0])" in txt or "sorted(self.instructions.items())" in txt
-    r.check(ok, "InstructionMemory.get_representation", f.loc(), "instruction listing is not sorted by address")
-    f = m.method("RiscvSimulation", "get_instruction_memory_entries", own=True)
-    ok = any(isinstance(n, ast.comprehension) and ast.unparse(n.iter).endswith("instruction_memory.get_representation()") for n in ast.walk(f.node))
+                f"follow first-write order of the backing dict (rows come from `{ast.unparse(it) if it is not None else '?'}`)")
+    f, it, extra = row_source("RiscvSimulation", "get_instruction_memory_entries")
+    ok = it is not None and isinstance(it, ast.Call) and isinstance(it.func, ast.Attribute) and it.func.attr == "get_representation" \
+        and ast.unparse(it.func.value).endswith("instruction_memory") and not extra[0]
     r.check(ok, "RiscvSimulation.get_instruction_memory_entries", f.loc(), "instruction table does not follow get_representation() order")
     r.floor(4)
 
